@@ -2,6 +2,7 @@ package main
 
 import (
 	"bytes"
+	"runtime"
 	"crypto/sha256"
 	"encoding/binary"
 	"encoding/hex"
@@ -13,19 +14,24 @@ import (
 
 func bytesReader(b []byte) io.Reader { return bytes.NewReader(b) }
 
-var siteRe = regexp.MustCompile(`(?m)^\s+(/repo/\S+|\S*go-uefi\S*):(\d+)`)
+var frameRe = regexp.MustCompile(`(?m)^\t(\S+\.go):(\d+)`)
 
-// panicSite extracts the first frame inside the library from a stack trace.
+// panicSite extracts the first frame inside the library (not the Go runtime / standard library, not the harness).
 func panicSite(stack []byte) string {
-	m := siteRe.FindSubmatch(stack)
-	if m == nil {
-		return "?"
+	for _, m := range frameRe.FindAllSubmatch(stack, -1) {
+		p := string(m[1])
+		if strings.Contains(p, "/harness/cmd/worker/") || strings.HasPrefix(p, runtime.GOROOT()) || strings.Contains(p, "/pkg/mod/") {
+			continue
+		}
+		for _, d := range []string{"/authenticode/", "/pkcs7/", "/efivarfs/", "/efivar/", "/efi/"} {
+			if i := strings.LastIndex(p, d); i >= 0 {
+				p = p[i+1:]
+				break
+			}
+		}
+		return p + ":" + string(m[2])
 	}
-	p := string(m[1])
-	if i := strings.Index(p, "/repo/"); i >= 0 {
-		p = p[i+6:]
-	}
-	return p + ":" + string(m[2])
+	return "?"
 }
 
 // prbytes returns n deterministic pseudo-random, non-periodic bytes for a symbolic identity.
